@@ -393,10 +393,14 @@ type codeBlock struct {
 	labels         map[string]*gotoLabelDesc
 	firstGotoIndex int
 	dbgLocals      []int // indices into Proto.DbgLocals of the variables declared in this block
+	outerVars      int   // number of local variables of the enclosing blocks
 }
 
 func newCodeBlock(localvars *varNamePool, blabel int, parent *codeBlock, pos ast.PositionHolder, firstGotoIndex int) *codeBlock {
-	bl := &codeBlock{localvars, blabel, parent, false, 0, 0, map[string]*gotoLabelDesc{}, firstGotoIndex, nil}
+	bl := &codeBlock{localvars, blabel, parent, false, 0, 0, map[string]*gotoLabelDesc{}, firstGotoIndex, nil, 0}
+	if parent != nil {
+		bl.outerVars = parent.LocalVarsCount()
+	}
 	if pos != nil {
 		bl.LineStart = pos.Line()
 		bl.LastLine = pos.LastLine()
@@ -419,12 +423,15 @@ func (b *codeBlock) GetLabel(label string) *gotoLabelDesc {
 	return nil
 }
 
+// LocalVarsCount is the number of local variables of this block and of all enclosing blocks of
+// the function. The enclosing blocks cannot get new variables while this block is open, so their
+// share is fixed when the block is created (outerVars); walking the chain of parents here made the
+// compilation of n nested blocks quadratic in n.
 func (b *codeBlock) LocalVarsCount() int {
-	count := 0
-	for block := b; block != nil; block = block.Parent {
-		count += len(block.LocalVars.Names())
+	if b == nil {
+		return 0
 	}
-	return count
+	return b.outerVars + len(b.LocalVars.Names())
 }
 
 type funcContext struct {
